@@ -42,8 +42,12 @@ fn main() {
                     for _ in 0..ops {
                         if r.chance(2, 5) {
                             let v = r.below(n as u64) as usize;
+                            // a timestamp as a validator would take it before scanning ...
+                            let t0 = c.logical_timestamp();
                             grevm::verif::p1("cur_call_rewind", v as i64);
                             c.rewind_validation_to(v);
+                            // ... must be older than the rewind timestamp published for v
+                            grevm::verif::n3("cur_rewound", v as i64, t0 as i64, c.lower_timestamp(v) as i64);
                         } else {
                             let limit = r.range(1, n as u64) as usize;
                             grevm::verif::p1("cur_call_claim", limit as i64);
